@@ -225,5 +225,20 @@ Section Search.
     run_collector c b0 hits.
 End Search.
 
+(* the paging protocol of the property: first page with From(0), every further page with
+   After(sort value of the last hit of the previous page), until a page comes back empty *)
+Fixpoint after_chain {B : Type} (consume : hit -> B -> B) (fuel : nat) (n : Z) (order : list sortspec)
+         (aggf : list Z) (b0 : B) (hits : list rawhit) (p : paging) : res (list hit) :=
+  match fuel with
+  | O => OutOfFuel
+  | S f =>
+      page <- rmap fst (topn_search consume n order p aggf b0 hits) ;;
+      match page with
+      | [] => Ok []
+      | _ => rest <- after_chain consume f n order aggf b0 hits (PAfter (h_sort (last page dummy_hit))) ;;
+             Ok (page ++ rest)
+      end
+  end.
+
 (* the observable of a result list: document numbers and sort values, in order *)
 Definition result_obs (l : list hit) : list (Z * list bytes) := map (fun h => (h_doc h, h_sort h)) l.
